@@ -3,8 +3,8 @@ package vh
 // Reference re-implementation of internal/eval/partial.go on top of the PUBLIC API only
 // (x/exp/ast node structs + x/exp/eval.Eval for "evaluate this operator over literal children").
 //
-// With the zero RefCfg it reproduces partial.go AS IT WAS BEFORE the four defect families were repaired
-// (stale-residual-*, isin-eager-rhs-error, tainted-*), with RepairedCfg() the code as repaired — bit for bit
+// With the zero RefCfg it reproduces partial.go AS IT WAS BEFORE the five defect families were repaired
+// (stale-residual-*, isin-eager-rhs-error, tainted-*, nested-ignore-consumed-whole), with RepairedCfg() the code as repaired — bit for bit
 // (residual AST and keep/drop); the C06/C05 oracles first find out which of BaseCfgs() reproduces the
 // implementation under test (Go-vs-Go white-box comparison) before they trust it.
 // Each switch of RefCfg applies ONE repair, so that a property failure observed on the real code can be
@@ -139,13 +139,13 @@ type RefCfg struct {
 	IsInLazy                   bool            // `e is T in r`: do not let an error in r escape unless the `is` test can succeed
 	Taint                      map[string]bool // op name -> treat operands that merely CONTAIN an unknown as unknown
 	TaintAll                   bool            // the same for every operator (the complete repair of the tainted-container defect)
-	// IgnTaint is a CANDIDATE repair, not applied to the code (never part of BaseCfgs): a record / set that merely contains
-	// an ignore marker is "ignored" for every consumer other than attribute access / `has` (finding class
-	// nested-ignore-consumed-whole)
+	// IgnTaint is the repair of finding class nested-ignore-consumed-whole (part of RepairedCfg: the reference REQUIRES
+	// it): a record / set that merely contains an ignore marker is "ignored" (errIgnore) for every consumer other than
+	// attribute access / `has`, and wherever it would be embedded in a residual
 	IgnTaint bool
 }
 
-// NestedIgnoreClass names the open finding: an operator other than `.` / `has` consumes (or a residual embeds) a
+// NestedIgnoreClass names the (repaired) finding: an operator other than `.` / `has` consumes (or a residual embeds) a
 // record / set VALUE that merely contains an ignore marker as if it were fully known.
 const NestedIgnoreClass = "nested-ignore-consumed-whole"
 
@@ -442,8 +442,8 @@ func (r *Ref) embedded(n ast.IsNode, orig ast.IsNode, where string) ast.IsNode {
 	return n
 }
 
-// ignEmbedded: a literal that merely contains an ignore marker is about to be embedded in a residual (candidate repair:
-// the construct is "ignored").
+// ignEmbedded: a literal that merely contains an ignore marker is about to be embedded in a residual (repair: the
+// construct is "ignored").
 func (r *Ref) ignEmbedded(p pres) bool {
 	if p.k != pkOK {
 		return false
@@ -861,7 +861,7 @@ func CfgWith(names []string) RefCfg { return RefCfg{}.With(names) }
 
 // RepairedCfg is partial.go as repaired: every switch on.
 func RepairedCfg() RefCfg {
-	return RefCfg{StaleAnd: true, StaleOr: true, StaleIf: true, IsInLazy: true, TaintAll: true}
+	return RefCfg{StaleAnd: true, StaleOr: true, StaleIf: true, IsInLazy: true, TaintAll: true, IgnTaint: true}
 }
 
 // BaseCfgs lists the configurations an implementation under test is compared with, most likely first: the
@@ -874,7 +874,11 @@ func BaseCfgs() []RefCfg {
 	noIsIn.IsInLazy = false
 	noTaint := RepairedCfg()
 	noTaint.TaintAll = false
-	return []RefCfg{RepairedCfg(), noStale, noIsIn, noTaint, {}}
+	noIgn := RepairedCfg()
+	noIgn.IgnTaint = false
+	// noIgn directly after the repaired code: the C05 replay compares DECISIONS only, and on a template with nested ignore
+	// markers a deny is reproduced by more than one reverted family; the family that is about ignore markers is tried first
+	return []RefCfg{RepairedCfg(), noIgn, noStale, noIsIn, noTaint, {}}
 }
 
 // Subsets enumerates the non-empty subsets of names by increasing size (at most 2^len, len is tiny).
